@@ -20,8 +20,10 @@ atomic step `c`; a step that is not enabled leaves the state unchanged, so every
 choices is a schedule and theorems over `run` for all lists are theorems over all
 interleavings.  Time is abstracted: the timer case of the `select` is always enabled.
 
-`fixed = false` is the released `Read`, which never looks at the close channel (defect F7);
-`fixed = true` is `Read` with the same check `Write` has always had.
+`fixed = false` is the released code: `Read` never looks at the close channel (defect F7) and
+the retry wait inside `roundTrip` is a plain `time.Sleep` (a closed connection keeps retrying);
+`fixed = true` is the repaired code: `Read` has the check `Write` has always had, and the
+retry wait also ends when the close channel is closed.
 -/
 namespace O4.Meek
 open O4.Consts.Meeklite
@@ -31,6 +33,7 @@ inductive WPc
   | sel                                             -- at the `select` (loop head)
   | coal (snd : Bytes)                              -- coalescing loop, `sndBuf = snd`
   | flight (snd : Bytes) (wrSz : Nat) (tries : Nat) -- `roundTrip(sndBuf[:wrSz])`, attempt no. `tries`
+  | retry (snd : Bytes) (wrSz : Nat) (tries : Nat)  -- roundTrip: attempt `tries` got a non-200; waiting `retryDelay`
   | got (snd : Bytes) (wrSz : Nat) (body : Bytes)   -- roundTrip returned `body`; before `leftBuf = sndBuf[wrSz:]`
   | enq (body : Bytes)                              -- `workerRdChan <- rdBuf` (may block)
   | x1                                              -- left the loop: before `close(workerRdChan)`
@@ -156,6 +159,8 @@ def stepWorker (s : State) : State :=
     else { s with leftBuf := snd.drop wrSz, wpc := .enq body }
   | .enq body =>
     if s.rdQ.length < maxChanBacklog then { s with rdQ := s.rdQ ++ [body], wpc := .sel } else s
+  | .retry snd wrSz k =>     -- the retry delay has passed: the same body again
+    { s with reqs := s.reqs ++ [(s.sid, snd.take wrSz)], wpc := .flight snd wrSz (k + 1) }
   | .x1 => { s with rdClosed := true, wpc := .x2 }
   | .x2 => { s with wrClosed := true, wpc := .x3 }
   | .x3 => { s with closed := true, wpc := .dead }
@@ -185,6 +190,7 @@ def step (fixed : Bool) (s : State) : Choice → State
     -- selects on the close channel at this point (the repair proposed under C10) gives the
     -- response up and exits; the model allows that step too (trace inclusion covers both).
     | .enq body => if s.closed then { s with wpc := .x1, dropped := s.dropped ++ [body] } else s
+    | .retry _ _ _ => if fixed && s.closed then { s with wpc := .x1 } else s
     | _ => s
   | .wStep => stepWorker s
   | .sOk body =>
@@ -197,9 +203,7 @@ def step (fixed : Bool) (s : State) : Choice → State
   | .sNon200 =>
     match s.wpc with
     | .flight snd wrSz k =>
-      if k < maxRetries then
-        { s with failed := true, answered := s.answered + 1,
-                 reqs := s.reqs ++ [(s.sid, snd.take wrSz)], wpc := .flight snd wrSz (k + 1) }
+      if k < maxRetries then { s with failed := true, answered := s.answered + 1, wpc := .retry snd wrSz k }
       else { s with failed := true, answered := s.answered + 1, wpc := .x1 }
     | _ => s
   | .sFail =>
@@ -221,6 +225,7 @@ def pendingUp (s : State) : Bytes :=
   | .coal snd => snd
   | .flight snd wrSz _ => snd.drop wrSz
   | .got snd wrSz _ => snd.drop wrSz
+  | .retry snd wrSz _ => snd.drop wrSz
   | _ => s.leftBuf
 
 /-- a response body the worker holds but has not queued yet -/
